@@ -247,8 +247,11 @@ func appendFlattenedKeys(keys []string, v value, opts *options) []string {
 	return append(keys, subcfg.flattenedKeys(opts)...)
 }
 
+// The read accessors accept a nil receiver: the zero value of Config (a Config
+// not made by New, like an unset struct field of type Config) has no fields
+// and reads as an empty configuration.
 func (f *fields) get(name string) (value, bool) {
-	if f.d == nil {
+	if f == nil || f.d == nil {
 		return nil, false
 	}
 	v, found := f.d[name]
@@ -256,10 +259,16 @@ func (f *fields) get(name string) (value, bool) {
 }
 
 func (f *fields) dict() map[string]value {
+	if f == nil {
+		return nil
+	}
 	return f.d
 }
 
 func (f *fields) array() []value {
+	if f == nil {
+		return nil
+	}
 	return f.a
 }
 
